@@ -406,7 +406,8 @@ def _one_model(res, rng, model, rep, with_fft, viol):
         fc, fp = fft.call(kf, T), fft.put(kf, T)
         # models FFT-priced earlier in this process at the same maturity: part of the replay (a pricer must not remember them)
         hist = _FFT_HIST.setdefault(T, [])
-        bad_fft = lambda what, **kw: bad(what, fft_history=hist[:1] + hist[-2:], **kw)  # noqa
+        h0 = hist[:1] + hist[1:][-2:]
+        bad_fft = lambda what, **kw: bad(what, fft_history=h0, **kw)  # noqa
         hist.append({k: rep[k] for k in ("model", "spot", "r", "d", "params")})
         dv = np.abs(fc - cosf)
         if np.any(dv > tol):
